@@ -255,3 +255,29 @@ pub fn probe(cex: &Value) -> Result<String, String> {
   }
   Err(out.join("\n"))
 }
+
+
+/// Confirmation of a parser-cursor candidate (C10 / C05): the given input through every DID entry point and accessor.
+pub fn cursor(cex: &Value) -> Result<String, String> {
+  let input = cex.get("input").and_then(Value::as_str).unwrap_or("").to_owned();
+  let i2 = input.clone();
+  let r = no_panic(move || {
+    let mut notes = Vec::new();
+    if let Ok(d) = CoreDID::parse(&i2) {
+      let re = format!("did:{}:{}", d.method(), d.method_id());
+      if re != i2 {
+        notes.push(format!("CoreDID components re-concatenate to {re:?}"));
+      }
+    }
+    if let Ok(u) = DIDUrl::parse(&i2) {
+      let _ = (u.did().method().len(), u.did().method_id().len(), u.path().map(str::len), u.query().map(str::len), u.fragment().map(str::len));
+      let _ = u.to_string();
+    }
+    notes
+  });
+  match r {
+    Err(msg) => Ok(format!("parsing {input:?} or reading its components panicked: {msg}")),
+    Ok(notes) if !notes.is_empty() => Ok(format!("{input:?}: {}", notes.join("; "))),
+    Ok(_) => Err(format!("{input:?} is handled without panic and decomposes consistently")),
+  }
+}
